@@ -15,6 +15,7 @@ def finish(prop, tier, seed, mod, joblist, results, lemmas, wall, verbose=False)
     tot = {k: 0 for k in ("paths", "decisions", "merges", "queries", "obligations", "discharged", "witnesses_validated",
                           "witnesses_skipped")}
     solver_time = 0.0
+    probes = {"offgrid_probes": 0, "fallback_probes": 0, "cegar_discharged": 0}
     files = {}
     samples = []
     jobsum = []
@@ -23,6 +24,8 @@ def finish(prop, tier, seed, mod, joblist, results, lemmas, wall, verbose=False)
         for k in tot:
             tot[k] += r.get(k, 0)
         solver_time += r.get("solver_time_s", 0.0)
+        for k in probes:
+            probes[k] += r.get(k, 0)
         files.update(r.get("files", {}))
         if r.get("canary"):
             ok = bool(r["violations"])
@@ -87,6 +90,8 @@ def finish(prop, tier, seed, mod, joblist, results, lemmas, wall, verbose=False)
             "outside_claim": getattr(mod, "OUTSIDE", []),
             "lemmas": lemmas, "canaries": canaries,
             "witnesses_skipped_offgrid": tot["witnesses_skipped"],
+            "real_code_probes_off_the_grid": probes["offgrid_probes"], "real_code_fallback_probes": probes["fallback_probes"],
+            "obligations_discharged_only_on_the_position_menu_or_margin": probes["cegar_discharged"],
             "inconclusive": inconc, "model_mismatches": mism[:20],
             "known_findings": known_ev,
             "exhaustive": False,
